@@ -37,6 +37,9 @@ type e2eReq struct {
 	Code     int    `json:"code"` // what the handler answers
 	// Extra: elective options numbered above 258 that follow No-Response in the request
 	Extra []int `json:"extra,omitempty"`
+	// Dup (datagram): the same datagram is delivered a second time; what was suppressed for the
+	// first copy stays suppressed for the duplicate
+	Dup bool `json:"dup,omitempty"`
 }
 
 type e2eScenario struct {
@@ -136,45 +139,57 @@ func execE2E(r *evid.Run) func(sc e2eScenario) *evid.Failure {
 					fail = evid.Failf("e2e/set-response", sc, "%s: SetResponse refused=%v, RFC 7967 says suppressed=%v", desc, serr != nil, suppressed)
 					return
 				}
-				var responses, acks []refcodec.Msg
-				for _, o := range out {
-					switch {
-					case o.Code != 0:
-						responses = append(responses, o)
-					case w.Datagram() && o.Type == peer.ACK && o.MID == m.MID && len(o.Token) == 0 && len(o.Opts) == 0 && len(o.Payload) == 0:
-						acks = append(acks, o) // a bare acknowledgement
-					default:
-						fail = evid.Failf("e2e/unexpected-message", sc, "%s: unexpected message on the wire %+v", desc, o)
+				copies := 1
+				if q.Dup && w.Datagram() {
+					copies = 2
+				}
+				for copyNo := 0; copyNo < copies; copyNo++ {
+					if copyNo > 0 {
+						desc += " [duplicate delivery]"
+						w.ToLib(m)
+						bubble.Wait()
+						out = w.FromLib()
+					}
+					var responses, acks []refcodec.Msg
+					for _, o := range out {
+						switch {
+						case o.Code != 0:
+							responses = append(responses, o)
+						case w.Datagram() && o.Type == peer.ACK && o.MID == m.MID && len(o.Token) == 0 && len(o.Opts) == 0 && len(o.Payload) == 0:
+							acks = append(acks, o) // a bare acknowledgement
+						default:
+							fail = evid.Failf("e2e/unexpected-message", sc, "%s: unexpected message on the wire %+v", desc, o)
+							return
+						}
+					}
+					if suppressed {
+						if len(responses) != 0 {
+							fail = evid.Failf("e2e/suppressed-response-on-wire", sc, "%s: the response is suppressed but %+v was put on the wire", desc, responses[0])
+							return
+						}
+						wantAcks := 0
+						if w.Datagram() && q.Con {
+							wantAcks = 1
+						}
+						if len(acks) != wantAcks {
+							fail = evid.Failf("e2e/bare-ack", sc, "%s: %d bare acknowledgements on the wire, want %d", desc, len(acks), wantAcks)
+							return
+						}
+						continue
+					}
+					if len(responses) != 1 || len(acks) != 0 {
+						fail = evid.Failf("e2e/response-dropped", sc, "%s: the response is not suppressed but the wire shows %d responses and %d bare ACKs", desc, len(responses), len(acks))
 						return
 					}
-				}
-				if suppressed {
-					if len(responses) != 0 {
-						fail = evid.Failf("e2e/suppressed-response-on-wire", sc, "%s: the response is suppressed but %+v was put on the wire", desc, responses[0])
+					rp := responses[0]
+					if rp.Code != q.Code || !bytes.Equal(rp.Token, m.Token) || string(rp.Payload) != "x" {
+						fail = evid.Failf("e2e/wrong-response", sc, "%s: response on the wire %+v", desc, rp)
 						return
 					}
-					wantAcks := 0
-					if w.Datagram() && q.Con {
-						wantAcks = 1
-					}
-					if len(acks) != wantAcks {
-						fail = evid.Failf("e2e/bare-ack", sc, "%s: %d bare acknowledgements on the wire, want %d", desc, len(acks), wantAcks)
+					if w.Datagram() && q.Con && (rp.Type != peer.ACK || rp.MID != m.MID) {
+						fail = evid.Failf("e2e/not-piggybacked", sc, "%s: response type %d MID %d", desc, rp.Type, rp.MID)
 						return
 					}
-					continue
-				}
-				if len(responses) != 1 || len(acks) != 0 {
-					fail = evid.Failf("e2e/response-dropped", sc, "%s: the response is not suppressed but the wire shows %d responses and %d bare ACKs", desc, len(responses), len(acks))
-					return
-				}
-				rp := responses[0]
-				if rp.Code != q.Code || !bytes.Equal(rp.Token, m.Token) || string(rp.Payload) != "x" {
-					fail = evid.Failf("e2e/wrong-response", sc, "%s: response on the wire %+v", desc, rp)
-					return
-				}
-				if w.Datagram() && q.Con && (rp.Type != peer.ACK || rp.MID != m.MID) {
-					fail = evid.Failf("e2e/not-piggybacked", sc, "%s: response type %d MID %d", desc, rp.Type, rp.MID)
-					return
 				}
 			}
 			closeConn()
@@ -215,6 +230,7 @@ func genE2E(t *rapid.T) e2eScenario {
 			Code:     rapid.OneOf(rapid.IntRange(64, 191), rapid.SampledFrom([]int{65, 69, 95, 128, 132, 136, 157, 160, 165, 191, 64, 96, 192, 224})).Draw(t, "code"),
 		}
 		q.Extra = rapid.SampledFrom([][]int{nil, nil, {292}, {65000}, {292, 65000}}).Draw(t, "extra")
+		q.Dup = rapid.IntRange(0, 3).Draw(t, "dup") == 0
 		sc.Reqs = append(sc.Reqs, q)
 	}
 	return sc
